@@ -28,12 +28,13 @@ STD_VERSION = "2.2.2"
 FEATURES = ["staking", "stargate", "cosmwasm_2_2"]
 
 # declared normalisations of the scratch copy of /repo (pattern, replacement, file, why)
+# (regular expression, replacement, file, why) — applied to the scratch copy of /repo only
 NORMALISATIONS = [
     (
-        "coin(supply.into(), denom)",
-        "coin(cosmwasm_std::Uint128::from(supply), denom)",
+        r"\bcoin\((\w+)\.into\(\),",
+        r"coin(cosmwasm_std::Uint128::from(\1),",
         "src/bank.rs",
-        "`.into()` is ambiguous once `coin` accepts symbolic amounts (explicit target type, same value)",
+        "`.into()` on a Uint128 is ambiguous once `coin` accepts symbolic amounts (explicit target type, same value)",
     ),
 ]
 
@@ -127,12 +128,13 @@ def gen_repo_s():
         if not os.path.exists(p):
             continue
         s = open(p).read()
-        if pat in s:
+        s2, n = re.subn(pat, rep, s)
+        if n:
             st = os.stat(p)
             with open(p, "w") as f:
-                f.write(s.replace(pat, rep))
+                f.write(s2)
             os.utime(p, (st.st_atime, st.st_mtime))
-            applied.append({"file": rel, "pattern": pat, "replacement": rep, "why": why})
+            applied.append({"file": rel, "pattern": pat, "replacement": rep, "occurrences": n, "why": why})
     return dst, applied
 
 
